@@ -562,7 +562,8 @@ def diff_class(a, b):
         ha = a[0] if a and isinstance(a[0], str) else ''
         hb = b[0] if b and isinstance(b[0], str) else ''
         if ha != hb:
-            return ('head', ha, hb)
+            atom = lambda h: 'Atom' if h in ('Name', 'Num', 'Str', 'True', 'False', 'None', 'Ellipsis') else h
+            return ('head', atom(ha), atom(hb))
         if len(a) != len(b):
             return ('arity', ha, f'{len(a)}!={len(b)}')
         for i, (x, y) in enumerate(zip(a, b)):
